@@ -15,10 +15,12 @@ PARAMS = [(0, (-1, -1, -1)), (1, (-1, -1, -1)), (0, (3, 1, 9)), (0, (12, 2, 0))]
 
 
 def pairs(V, wd, tier, rng):
-    W = words("AC", 4 if tier == "quick" else 5)
+    W = words("AC", 5)
     cases = [(a, b) for a in W for b in W if len(a) <= len(b)]
     jobs = []
-    for pi, (ty, pens) in enumerate(PARAMS if tier != "quick" else PARAMS[:3]):
+    for pi, (ty, pens) in enumerate(PARAMS):
+        if tier == "quick" and pi not in (0, 2):
+            continue
         for k in range(0, len(cases), 120):
             jobs.append((pi, ty, pens, k, cases[k:k + 120]))
     if tier != "quick":
